@@ -99,6 +99,8 @@ def check_linear(case, ctx):
         recs.append(rec)
     if recs[0]["randperm"] or recs[0]["randn"]:
         ctx.count("rng_recorder_hits")
+    if recs[0]["randperm"]:
+        ctx.count("randperm_recorder_hits")
     orders = E.pcgrad_orders(recs[0], m) if name == "PCGrad" else None
     for X in Xs:
         g = E.guard(desc, X, dname, orders=orders)
@@ -193,3 +195,14 @@ def run_shard(shard, ctx):
 
 def replay(case, ctx):
     (check_upgrad if "agg" not in case else check_linear)(case, ctx)
+
+
+REQ_PCGRAD = ["judged:PCGrad", "w_pcgrad_conflict"]
+
+
+def waivers(counters):
+    if counters.get("randperm_recorder_hits", 0) == 0:  # PCGrad judged for m <= 4 only (all-orders guard): its quota is waived
+        return {k for k in REQ_PCGRAD}
+    if counters.get("rng_recorder_hits", 0) == 0:
+        return {"rng_recorder_hits", "judged:PCGrad", "w_pcgrad_conflict"}
+    return set()
